@@ -13,8 +13,7 @@ class C12(SessionCheck):
             '(no event / EOF / write error), for 14 profiles; failed connects (hello timeout) followed by close; plus real-socket sessions '
             '(Unix; TLS with harness-made certificates): close_session, with-block with and without exception, a server that never '
             'answers <close-session> (also with the manager in asynchronous mode), a peer that stops reading while a large request is being written (duration of the closing call measured), a request in flight at close, failed hello (malformed, peer closes at once), and open/close cycles '
-            'A server that refuses <close-session> with an rpc-error, close with a backlog of 2500+ untaken notifications, an application listener that unregisters itself in its errback. '
-            'counting threads and file descriptors. Non-trivial = history >= 8 commands / any socket run.')
+            'counting threads and file descriptors. A server that refuses <close-session> with an rpc-error, close with a backlog of 2500+ untaken notifications, an application listener that unregisters itself in its errback. Non-trivial = history >= 8 commands / any socket run.')
     ASSUMPTIONS = ['what epoll / paramiko report for a locally closed descriptor is the environment parameter of the model '
                    '(Spec/Session.lean workerOpClosed); the real-socket runs observe it on Linux for Unix and TLS sockets; '
                    'the SSH transport is exercised through the lock-step fake channel (an in-process paramiko SSH server covers the SSH transport)']
